@@ -110,6 +110,10 @@ func PlmnIdToCdr(modelsPlmnid models.PlmnId) cdrType.PLMNId {
 	}
 	mcc := strings.Split(modelsPlmnid.Mcc, "")
 	mnc := strings.Split(modelsPlmnid.Mnc, "")
+	if len(mcc) != 3 || len(mnc) != len(modelsPlmnid.Mnc) {
+		// multi-octet characters: the right number of octets but fewer characters, not digits
+		return cdrType.PLMNId{}
+	}
 	if len(modelsPlmnid.Mnc) == 2 {
 		hexString = mcc[1] + mcc[0] + "f" + mcc[2] + mnc[1] + mnc[0]
 	} else {
